@@ -82,20 +82,20 @@ fn main() {
             let t0 = std::time::Instant::now();
             let run = std::panic::catch_unwind(std::panic::AssertUnwindSafe(|| { let c = &mut c; match prop.as_str() {
                 "C01" => { props::c01(c, &b); props2::special_other(c, &b, "C01"); props5::constructor_variants(c, &b); props_enum::run(c, "C01", &b); }
-                "C02" => { props::c02(c, &b); props2::deep_elision(c, &b, "C02"); props5::elision_variants(c, &b); props_enum::run(c, "C02", &b); }
-                "C03" => { props2::c03(c, &b); props5::elision_variants(c, &b); props_enum::run(c, "C03", &b); }
+                "C02" => { props::c02(c, &b); props2::deep_elision(c, &b, "C02"); props2::special_elision(c, &b, "C02"); props5::elision_variants(c, &b); props_enum::run(c, "C02", &b); }
+                "C03" => { props2::c03(c, &b); props2::special_elision(c, &b, "C03"); props5::elision_variants(c, &b); props_enum::run(c, "C03", &b); }
                 "C04" => { props::c04(c, &b); props2::special_other(c, &b, "C04"); props::c04_spliced(c, &b); props_enum::run(c, "C04", &b); }
                 "C05" => { props::c05(c, &b); props2::deep_other(c, &b, "C05"); props2::special_other(c, &b, "C05"); props5::decode_variants(c, &b); props_enum::run(c, "C05", &b); }
                 "C06" => props::c06(c, &b),
                 "C07" => { props::c07(c, &b); props5::assertion_variants(c, &b); }
-                "C08" => { props2::c08(c, &b); props2::deep_other(c, &b, "C08"); props2::special_other(c, &b, "C08"); }
+                "C08" => { props2::c08(c, &b); props2::deep_other(c, &b, "C08"); props2::special_other(c, &b, "C08"); props2::special_elision(c, &b, "C08"); }
                 "C09" => { props4::c09(c, &b); props4::c09_glue(c, &b); props5::signature_variants(c, &b); }
                 "C10" => { props4::c10(c, &b); props4::c10_model(c, &b); props5::recipient_variants(c, &b); }
                 "C11" => { props4::c11(c, &b); props4::c11_model(c, &b); }
                 "C12" => { props2::c12(c, &b); props2::deep_other(c, &b, "C12"); props_enum::run(c, "C12", &b); }
                 "C13" => { props2::c13(c, &b); props2::deep_other(c, &b, "C13"); props2::special_other(c, &b, "C13"); }
                 "C14" => { props2::c14(c, &b); props_enum::run(c, "C14", &b); }
-                "C15" => { props2::c15(c, &b); props2::deep_other(c, &b, "C15"); props5::query_variants(c, &b); }
+                "C15" => { props2::c15(c, &b); props2::deep_other(c, &b, "C15"); props5::query_variants(c, &b); props5::integer_widths(c, &b); }
                 "C16" => props3::c16(c, &b),
                 "C17" => { props4::c17(c, &b); props4::c17_model(c, &b); props5::salt_variants(c, &b); }
                 "C18" => { props4::c18(c, &b); props4::c18_model(c, &b); }
